@@ -625,6 +625,60 @@ class LoopMixin:
             out.append(Ob("lemma::%s::%s" % (name, label), list(hyps), goal, "lemma", lem.props, fn="lemma::" + name))
         return out
 
+    def closure_obligations(self, st, c, fid):
+        """nested functions with their own contract declare their closure variables (`free={name: type}`) as assumptions; the enclosing
+        function, at its normal exits, owes them: every such name that is a local of the enclosing function is bound, to a value of
+        the declared type"""
+        fn = self.cur_fn
+        if not isinstance(fn, (ast.FunctionDef, ast.AsyncFunctionDef)):
+            return
+        locals_ = assigned_names(fn.body) | set(self.param_names)
+        for k2, c2 in SP.CONTRACTS.items():
+            if c2.path != c.path or not c2.qualname.startswith(c.qualname + ".") or "." in c2.qualname[len(c.qualname) + 1:]:
+                continue
+            if st.frames[fid].get(c2.qualname.split(".")[-1]) is None:
+                continue        # the nested function was not defined on this path
+            try:
+                inner = self.fe.find(c2.path, c2.qualname)[0]
+                used = {n.id for n in ast.walk(inner) if isinstance(n, ast.Name)}
+            except KeyError:
+                continue
+            for name, hint in c2.extra.get("free", {}).items():
+                if name not in used:
+                    continue        # a specification variable, not a variable of the program
+                if name not in locals_:
+                    # not a local of the enclosing function: it must at least resolve as a global, or the inner function raises NameError
+                    try:
+                        self.module_global(st, c.path, name)
+                    except Unsupported as ex:
+                        if str(ex).startswith("unresolved name"):
+                            self.emit(st, "closure:%s:%s (bound nowhere)" % (c2.qualname.split(".")[-1], name), z3.BoolVal(False), "post", c.props)
+                    continue
+                v0 = st.frames[fid].get(name)
+                label = "closure:%s:%s" % (c2.qualname.split(".")[-1], name)
+                if v0 is None:
+                    self.emit(st, label + " (unbound in the enclosing function)", z3.BoolVal(False), "post", c.props)
+                    continue
+                if not isinstance(hint, str) or hint in ("Any", "val"):
+                    continue
+                try:
+                    bv = box(self.heapify(st, v0)) if v0.k not in ("func", "bound", "builtin", "ext", "meth", "module") else None
+                except (Unsupported, SpecError):
+                    bv = None
+                if bv is None:
+                    continue
+                s2 = State()
+                s2.heap = dict(st.heap)
+                s2.heap0 = st.heap0
+                try:
+                    self.from_val(s2, bv, hint)
+                except (Unsupported, SpecError):
+                    continue
+                if s2.pc:
+                    g = z3.simplify(z3.And(*s2.pc))
+                    if not z3.is_true(g):
+                        self.emit(st, label, g, "post", c.props)
+
     def check_exit(self, c, o, fid):
         st = o.st
         st.fid = fid
@@ -644,6 +698,7 @@ class LoopMixin:
                 if rs.get("iff") and rs.get("when"):
                     g = z3.Not(self.spec_eval(st, rs["when"], fid, st.heap0, st.entry_frame, {}))
                     self.emit(st, "post:raises-when:%s" % rs.get("cls"), g, "post")
+            self.closure_obligations(st, c, fid)
             rt = c.returns
             if val.k == "none" and isinstance(rt, str) and rt not in ("none", "Any", "val") and not rt.startswith("Opt["):
                 # the function returns None here although its contract declares a (non-optional) result type: that alone is the
